@@ -129,6 +129,10 @@ type faultBackend struct {
 	storage.Backend
 	readFail  map[string]bool
 	writeFail map[string]bool
+	// transient write faults: only the first WriteReader attempt for the path fails, after half of the
+	// body has been consumed from the reader and handed to the real backend; later attempts go through
+	writeOnce map[string]bool
+	attempts  map[string]int
 	mode      string
 	strip     func(string) string // maps a backend path to the original storage path
 	hits      map[string]int
@@ -184,6 +188,21 @@ func (b *faultBackend) Read(ctx context.Context, path string) ([]byte, error) {
 }
 
 func (b *faultBackend) WriteReader(ctx context.Context, path string, r io.Reader, size int64) error {
+	if b.writeOnce[b.key(path)] {
+		if b.attempts == nil {
+			b.attempts = map[string]int{}
+		}
+		b.attempts[b.key(path)]++
+		if b.attempts[b.key(path)] == 1 {
+			b.hits["write-once:"+b.key(path)]++
+			fr := &failingReader{r: r, left: size / 2}
+			if err := b.Backend.WriteReader(ctx, path, fr, size); err != nil {
+				return err
+			}
+			return fmt.Errorf("write %s: %w", path, errInjected)
+		}
+		return b.Backend.WriteReader(ctx, path, r, size)
+	}
 	if b.writeFail[b.key(path)] {
 		b.hits["write:"+b.key(path)]++
 		if b.mode == "mid" {
@@ -327,8 +346,8 @@ func runScenario(base string, sc scenario, mode string, seed int64) (*runOut, er
 	}
 	hits := map[string]int{}
 	srcProxy := &faultBackend{Backend: srcReal, readFail: fset("rb"), mode: mode, hits: hits}
-	bakProxy := &faultBackend{Backend: bakReal, writeFail: fset("wb"), readFail: fset("rr"), mode: mode, strip: stripBak, hits: hits}
-	dstProxy := &faultBackend{Backend: dstReal, writeFail: fset("wr"), mode: mode, hits: hits}
+	bakProxy := &faultBackend{Backend: bakReal, writeFail: fset("wb"), writeOnce: fset("wbt"), readFail: fset("rr"), mode: mode, strip: stripBak, hits: hits}
+	dstProxy := &faultBackend{Backend: dstReal, writeFail: fset("wr"), writeOnce: fset("wrt"), mode: mode, hits: hits}
 
 	// ---- backup
 	bm := backup.VerifNewManager(srcProxy, bakProxy, logger)
@@ -550,22 +569,34 @@ func main() {
 			}
 			// (1) restore reports success => every backed-up file is at its original path, byte for byte
 			if restoreOK {
+				damagedSet := map[string]bool{}
+				for _, d := range o.Damaged {
+					damagedSet[d] = true
+				}
 				missBy := map[string][]string{}
 				for id := range storedSet {
 					if !restoredSet[id] {
 						k := faultOf(id)
+						if damagedSet[id] || damagedSet[strings.TrimPrefix(id, "~")] {
+							k = "altered:" + k
+						}
 						missBy[k] = append(missBy[k], id)
 					}
 				}
 				for k, ids := range missBy {
 					sort.Strings(ids)
-					switch k {
-					case "rr":
-						add("restore-completed-despite-failed-file:read-from-backup-failed", "not restored: "+strings.Join(ids, ","))
-					case "wr":
-						add("restore-completed-despite-failed-file:write-to-target-failed", "not restored: "+strings.Join(ids, ","))
+					note := "not byte-identical at the original path: " + strings.Join(ids, ",")
+					switch {
+					case k == "rr":
+						add("restore-completed-despite-failed-file:read-from-backup-failed", note)
+					case k == "wr":
+						add("restore-completed-despite-failed-file:write-to-target-failed", note)
+					case k == "wrt":
+						add("restore-completed-despite-failed-file:transient-write-to-target-failed", note)
+					case strings.HasPrefix(k, "altered:"):
+						add("restore-completed-with-altered-file:fault="+strings.TrimPrefix(k, "altered:"), note)
 					default:
-						add("restore-completed-but-backed-up-file-missing-or-altered:no-fault-on-file", "not restored: "+strings.Join(ids, ","))
+						add("restore-completed-but-backed-up-file-missing:fault="+k, note)
 					}
 				}
 			}
